@@ -81,9 +81,12 @@ func ZZ_C08_K2() {
 	g := zzNewGenesisBanded(3, 2, govp)
 	a := g.start() // never crashes
 	c := g.start() // crashes in block 3
+	// block 2 carries votes; A1 may have missed block 1 (the missed-block mark is
+	// state that a later block of the recovered node must still know)
+	a1Signed2 := zzverif.Choose("a1.signs.block2", 2) == 1
 	for _, n := range []*zzNode{a, c} {
 		n.emptyBlock(0)
-		n.emptyBlock(0)
+		n.menuBlock(nil, a1Signed2)
 	}
 	m3, m4 := zzNondetMenuTx("tx3"), zzNondetMenuTx("tx4")
 	h2 := a.app.lastBlockCtx.AppHash()
